@@ -546,15 +546,16 @@ def cache_coverage(rec, F):
         for bi, t in f.calls():
             if t["f"].endswith("cache::InlineCache::new"):
                 new_sites.append((f, bi, t))
-    if len(new_sites) != 1:
-        rec.anchor_lost("F4.cache-cover", "InlineCache::new site in Vm::compile (found %d)" % len(new_sites))
+    if not new_sites:
+        rec.anchor_lost("F4.cache-cover", "InlineCache::new site in Vm::compile (found 0)")
         return
+    for f, bi, t in new_sites:
+        d0, d1 = sem.desc_operand(f, t["args"][0]), sem.desc_operand(f, t["args"][1])
+        oka = sem.desc_call_name(d0) == "property_count" and sem.desc_call_name(d1) == "invoke_count"
+        rec.inst(R, "(a) InlineCache::new(property_count, invoke_count)", ok=oka, loc=loc_of(t["sp"]))
+        if not oka:
+            rec.finding(R, "F4.cache-cover/a", "InlineCache::new is not sized from the emitter's (property_count, invoke_count) in that order", loc=loc_of(t["sp"]), fn=f.path)
     f, bi, t = new_sites[0]
-    d0, d1 = sem.desc_operand(f, t["args"][0]), sem.desc_operand(f, t["args"][1])
-    oka = sem.desc_call_name(d0) == "property_count" and sem.desc_call_name(d1) == "invoke_count"
-    rec.inst(R, "(a) InlineCache::new(property_count, invoke_count)", ok=oka, loc=loc_of(t["sp"]))
-    if not oka:
-        rec.finding(R, "F4.cache-cover/a", "InlineCache::new is not sized from the emitter's (property_count, invoke_count) in that order", loc=loc_of(t["sp"]), fn=f.path)
     # emitter returned by Compiler::compile flows into the closure
     okem = False
     for b2, t2 in cp.calls():
@@ -591,12 +592,92 @@ def cache_coverage(rec, F):
     for b2, t2 in cn.calls():
         if "CacheIdEmitter" in t2["f"] + t2["g"] and lastseg(t2["f"]) in ("default", "new"):
             fresh = True
-    extends = any(lastseg(tt["f"]) in ("extend", "grow", "resize", "merge") for ff in [cp] + cl for _, tt in ff.calls())
     repl_reuses = any(lastseg(tt["f"]) == "interpret" for _, tt in rp.calls())
-    okc = not (fresh and repl_reuses and not extends)
-    rec.inst(R, "(c) emitter continues for a re-compiled module", ok=okc, loc=cn.loc)
+    if not (fresh and repl_reuses):
+        rec.inst(R, "(c) emitter continues for a re-compiled module", ok=True, loc=cn.loc, note="Compiler::new does not start a fresh emitter / repl does not reuse a module")
+        return
+    # (c1) Vm::compile hands the compiler an emitter computed from the cache the module already has
+    CE = "laythe_vm::cache::CacheIdEmitter"
+    handed = None
+    for b2, t2 in cp.calls():
+        if "compiler::Compiler" in t2["f"] and lastseg(t2["f"]) != "new":
+            for ai, a_ in enumerate(t2["args"]):
+                l = op_local(a_)
+                if l is not None and (cp.locals[l] or "").endswith("CacheIdEmitter"):
+                    handed = (b2, t2, l)
+    okc1 = False
+    maker = None
+    if handed is not None:
+        # every definition of that local: from the existing cache (a method of InlineCache applied to an
+        # element of self.inline_cache selected by module.id()) or the default emitter on the edge where there is none
+        srcs = []
+        todo, seen_l = [handed[2]], set()
+        while todo:
+            l_ = todo.pop()
+            if l_ in seen_l:
+                continue
+            seen_l.add(l_)
+            for d in cp.defs.get(l_, []):
+                if d[0] == "call":
+                    srcs.append(d[1])
+                elif d[1]["k"] == "use" and op_local(d[1]["a"]) is not None:
+                    todo.append(op_local(d[1]["a"]))
+                else:
+                    srcs.append({"f": "?", "args": []})
+        from_cache = [t2 for t2 in srcs if "cache::InlineCache::" in t2["f"]]
+        dflt = [t2 for t2 in srcs if lastseg(t2["f"]) in ("default", "new") and "InlineCache" not in t2["f"]]
+        if len(from_cache) == 1 and len(from_cache) + len(dflt) == len(srcs):
+            d0 = str(sem.desc_operand(cp, from_cache[0]["args"][0]))
+            okc1 = "'get'" in d0 or "'index'" in d0
+            okc1 = okc1 and "'id'" in d0
+            # the receiver comes from self.inline_cache: follow the get/index call
+            r = cp.root_of(from_cache[0]["args"][0])
+            seen = 0
+            while r[0] in ("call", "place") and seen < 6:
+                seen += 1
+                if r[0] == "place":
+                    # payload of the Option returned by get(): go to the local's definition
+                    r = cp.root_of({"copy": {"l": r[1]["l"], "p": []}})
+                    continue
+                if sem.desc_mentions_field(sem.desc_operand(cp, r[1]["args"][0]), "inline_cache"):
+                    break
+                r = cp.root_of(r[1]["args"][0])
+            okc1 = okc1 and r[0] == "call" and sem.desc_mentions_field(sem.desc_operand(cp, r[1]["args"][0]), "inline_cache")
+            maker = F.fn(from_cache[0]["f"])
+    rec.inst(R, "(c1) the compiler is handed an emitter made from inline_cache[module.id()]", ok=okc1, loc=cp.loc)
+    # (c2) that emitter continues at the cache's own lengths, property then invoke
+    okc2 = False
+    if maker is not None:
+        for b2, si, s_ in maker.stmts():
+            if s_["r"]["k"] == "agg" and s_["r"]["adt"].startswith(CE) and len(s_["r"]["ops"]) == 2:
+                ds = [sem.desc_operand(maker, o) for o in s_["r"]["ops"]]
+                okc2 = all(sem.desc_call_name(d) in ("starting_at", "from", "new") and "'len'" in str(d) for d in ds) and sem.desc_mentions_field(ds[0], "property") and sem.desc_mentions_field(ds[1], "invoke") and not sem.desc_mentions_field(ds[0], "invoke") and not sem.desc_mentions_field(ds[1], "property")
+                # no arithmetic on the lengths
+                okc2 = okc2 and "'bin'" not in str(ds)
+    rec.inst(R, "(c2) the continued emitter starts at (property.len(), invoke.len())", ok=okc2, loc=maker.loc if maker else cp.loc)
+    # (c3) the cache the module already has is grown in place, never replaced
+    okc3 = False
+    replaced = False
+    for f2 in [cp] + cl:
+        for b2, t2 in f2.calls():
+            if lastseg(t2["f"]) == "index_mut" and "Vec" in t2["f"] and sem.desc_mentions_field(sem.desc_operand(f2, t2["args"][0]), "inline_cache"):
+                dl = t2["dest"]["l"]
+                users = [tt for _, tt in f2.calls() if tt["args"] and f2.root_of(tt["args"][0]) == ("call", t2, b2)]
+                grown = [tt for tt in users if "cache::InlineCache::" in tt["f"]]
+                stores = [s_ for _, _, s_ in f2.stmts() if s_["d"]["l"] == dl and any(e[0] == "deref" for e in s_["d"]["p"])]
+                if stores:
+                    replaced = True
+                for tt in grown:
+                    g = F.fn(tt["f"])
+                    if g is not None:
+                        names = {lastseg(x["f"]) for _, x in g.calls()}
+                        okc3 = "resize" in names and not (names & {"clear", "truncate", "drain", "new", "with_capacity", "from_elem"})
+    okc3 = okc3 and not replaced
+    rec.inst(R, "(c3) an existing cache is grown in place (resize only), not replaced", ok=okc3, loc=cp.loc)
+    okc = okc1 and okc2 and okc3
     if not okc:
-        rec.finding(R, "F4.cache-cover/c", "Vm::repl compiles every entry into one module, but Compiler::new starts a fresh CacheIdEmitter and Vm::compile replaces inline_cache[m.id()] with a cache sized for the latest entry only: slot ids embedded in earlier entries' code index past the end", loc=cn.loc, fn=cn.path)
+        which = [n for n, o in (("emitter not continued from the module's cache", okc1), ("continued emitter does not start at the cache's lengths", okc2), ("existing cache replaced or shrunk", okc3)) if not o]
+        rec.finding(R, "F4.cache-cover/c", "Vm::repl compiles every entry into one module; slot ids embedded in earlier entries' code must stay valid and unshared (%s): otherwise they index past the end of, or share a slot in, the cache sized for the latest entry" % "; ".join(which), loc=cn.loc, fn=cn.path)
 
 
 def synthetic_call_protocol(rec, F):
